@@ -62,6 +62,14 @@ func InspectSymbolContent(name string) string {
 			break
 		}
 		char, bytes := utf8.DecodeRuneInString(str)
+		if char == utf8.RuneError && bytes == 1 {
+			// invalid UTF-8 character, written as a raw byte escape
+			fmt.Fprintf(&result, `\x%02x`, str[0])
+			str = str[bytes:]
+			quotes = true
+			firstLetter = false
+			continue
+		}
 		str = str[bytes:]
 		switch char {
 		case '\\':
